@@ -157,6 +157,19 @@ func (t *tcpHandler) Handle() error {
 		vhook.At("tcp.accept.exit", t.config.Address)
 	}
 	if t.pool != nil {
+		// requests that were already read may still be waiting in the pool's queue: stop the workers
+		// only after every connection has drained (recv returns once its handlers have finished)
+		for {
+			open := false
+			t.conns.Range(func(key, val interface{}) bool {
+				open = true
+				return false
+			})
+			if !open {
+				break
+			}
+			time.Sleep(time.Millisecond * 100)
+		}
 		t.pool.Release()
 	}
 	if vhook.Enabled {
